@@ -281,6 +281,26 @@ example : ¬ (hashJoin { smallProbeEmptyTable := true } .semi Ex.cfgT Ex.Lx Ex.R
 example : hashJoin { smallProbeEmptyTable := true } .semi Ex.cfgT Ex.Lx Ex.Rx = [] := by decide
 example : hashJoin { smallProbeEmptyTable := true } .anti Ex.cfgT Ex.Lx Ex.Rx = Ex.Lx.flatten.flatten := by decide
 
+-- `semiAntiEmptyTable` (the same empty table, reached by probe_semi_anti_parallel with > 1000 probe rows when the key is
+-- not a single BIGINT or the residual did not compile): no size gate in the model
+example : ¬ (hashJoin { semiAntiEmptyTable := true } .anti Ex.cfgT Ex.Lx Ex.Rx ~
+    nlJoin .anti 2 2 (fun l r => keysEq Ex.cfgT l r && Ex.cfgT.residual l r) Ex.Lx.flatten.flatten Ex.Rx.flatten.flatten) := by
+  decide
+example : hashJoin { semiAntiEmptyTable := true } .semi Ex.cfgT Ex.Lx Ex.Rx = [] := by decide
+
+-- `compiledFilterRawNulls`: with `residualRaw` = the residual over rows whose NULL cells read as 0, the left row (9, NULL)
+-- passes `v0 <> v1` against (9, 5) although NULL <> 5 is not TRUE
+example : hashJoin { compiledFilterRawNulls := true } .semi
+    { lkeys := [0], rkeys := [0], lw := 2, rw := 2,
+      residual := fun l r => match l.getD 1 .null, r.getD 1 .null with | .int a, .int b => decide (a ≠ b) | _, _ => false,
+      residualRaw := fun l r => match l.getD 1 .null, r.getD 1 .null with
+        | .int a, .int b => decide (a ≠ b) | .null, .int b => decide (0 ≠ b) | .int a, .null => decide (a ≠ 0) | _, _ => false }
+    [[[[.int 9, .null]]]] [[[[.int 9, .int 5]]]] = [[.int 9, .null]] := by decide
+example : hashJoin {} .semi
+    { lkeys := [0], rkeys := [0], lw := 2, rw := 2,
+      residual := fun l r => match l.getD 1 .null, r.getD 1 .null with | .int a, .int b => decide (a ≠ b) | _, _ => false }
+    [[[[.int 9, .null]]]] [[[[.int 9, .int 5]]]] = [] := by decide
+
 -- the runtime filter must NOT be applied to a preserved / output probe side: LEFT and ANTI with the build on
 -- the right lose exactly the rows they exist to keep
 example : ¬ (hashJoinRF {} .left { Ex.cfgK with buildLeft := false } 0 Ex.Lx Ex.Rx ~
